@@ -55,7 +55,7 @@ Proof.
       * destruct (rec_validate (r_vo o) (TPrim k) x vts) as [[]| | |] eqn:Rv; cbn [bind] in Ey; try discriminate.
         inversion Ey; subst. apply (rec_validate_prim _ _ _ _ Rv).
       * destruct v as [n|]; [|discriminate].
-        destruct (reify_merge_prim f2 _ _ vts k x n y Ey Nv) as [c [Eg Rv]]. subst y. exact Rv.
+        apply in_seg_ok in Ey. destruct (reify_merge_prim f2 _ _ vts k x n y Ey Nv) as [c [Eg Rv]]. subst y. exact Rv.
 Qed.
 
 (* Unpack into a flat struct: every field of the result satisfies its validators *)
